@@ -30,7 +30,7 @@ func laneText(raw json.RawMessage) ([]vf.Failure, error) {
 	return fails, nil
 }
 
-var lanes = map[string]vf.LaneFunc{"generated": laneText, "corpus": laneText, "lines": laneText}
+var lanes = map[string]vf.LaneFunc{"fuzz": laneText, "generated": laneText, "corpus": laneText, "lines": laneText}
 
 func TestReplay(t *testing.T) {
 	if !vf.RunReplayMode(t, prop, lanes) {
@@ -219,4 +219,61 @@ func TestCorpus(t *testing.T) {
 			}
 		}
 	}
+}
+
+// FuzzDiffs: coverage-guided texts. Inputs the parser rejects are outside the
+// quantifier (only accepted sources are formatted) and pass trivially.
+func FuzzDiffs(f *testing.F) {
+	for _, text := range corpusFiles() {
+		f.Add(text)
+	}
+	f.Add("a = \"x\\\ny\"\n")
+	f.Add("block a.b:q // c\n  | desc\n\n\n/* c */ x = [1, [2, \"s\"]] // t\n} y = /a\\/b/\n")
+	known := vf.KnownOpen(prop)
+	f.Fuzz(func(t *testing.T, text string) {
+		if len(text) > 1<<13 {
+			return
+		}
+		fails, _, _ := checkDiffs(text)
+		for _, fl := range fails {
+			if !known[fl.Key] {
+				t.Fatalf("c19 fuzz: [%s] %s", fl.Key, fl.Detail)
+			}
+		}
+	})
+}
+
+// TestFuzzInput pushes crashers found by FuzzDiffs through the normal verdict path.
+func TestFuzzInput(t *testing.T) {
+	r := vf.Start(t, prop, "fuzz")
+	for _, p := range vf.FuzzInputs() {
+		vals, err := vf.ReadFuzzInput(p)
+		if err != nil || len(vals) != 1 {
+			r.Note("unreadable fuzz input %s: %v", p, err)
+			continue
+		}
+		text := vals[0].(string)
+		c := textCase{text}
+		r.Eval(true, vf.Hash(text), "fuzz-crasher")
+		r.Journal(c)
+		fails, _, _ := checkDiffs(text)
+		r.JudgeNoFatal(c, fails)
+	}
+}
+
+func corpusFiles() map[string]string {
+	out := map[string]string{}
+	repo := os.Getenv("VERIF_REPO")
+	if repo == "" {
+		repo = "/repo"
+	}
+	for _, g := range []string{"internal/bcl/internal/parser/testdata/*", "internal/bcl/examples/*.bcl", "j5stest/proto/j5st/v1/*.j5s", "proto/j5/j5/*/v1/*.j5s"} {
+		ms, _ := filepath.Glob(filepath.Join(repo, g))
+		for _, m := range ms {
+			if b, err := os.ReadFile(m); err == nil && len(b) < 1<<20 {
+				out[m] = string(b)
+			}
+		}
+	}
+	return out
 }
